@@ -310,3 +310,74 @@ def rule_last_iteration_flag(ctx):
     ctx.holds("LASTITER", "LASTITER:all", "-", "%d functions scanned: no loop overwrites a truth-valued flag from the current element alone" % n, nontrivial=False)
     ctx.floor("LASTITER", 1000, n, "(functions scanned)")
     return n
+
+
+# ---------------------------------------------------------------------------------------
+def rule_unlimited_size_per_variable(ctx):
+    """UNLIMSIZE (C03, C15): in an HDF file every record variable has its own record count (`var->numrecs`); the file-wide
+    `handle->numrecs` is the count of a netCDF file (and the maximum over the variables of an HDF file).  Wherever the extent of
+    a *variable's* unlimited dimension (`var->shape[k] == NC_UNLIMITED`) is replaced by the current size, `handle->numrecs`
+    may be read only on the branch where the file is not an HDF file; using it for an HDF file gives a variable the length
+    of the longest variable of the file (in validation, in the reported dimensions and in the NDG written for DFSD readers)."""
+    from .codec import ast_walk, ast_exprs
+    from .facts import int_name, base_var
+    prog = ctx.prog
+    n = 0
+    for f in prog.lib_funcs():
+        if not f.rel.startswith("mfhdf/src/"):
+            continue
+        # variables / arrays that hold values of var->shape[...]
+        shapev = set()
+        for _b, _i, _s, x in f.nodes(True):
+            if x[0] == "asg" and x[1] == "=" and any(y[0] == "mem" and y[2] == "shape" for y in walk(x[3], True)):
+                b = base_var(x[2])
+                if b:
+                    shapev.add(b)
+            elif x[0] == "decl":
+                for d in x[1]:
+                    if d[2] is not None and any(y[0] == "mem" and y[2] == "shape" for y in walk(d[2], True)):
+                        shapev.add(d[0])
+        found = []
+
+        def vis(nn, st):
+            if nn[0] == "if":
+                c = strip(nn[1])
+                if kind(c) == "bin" and c[1] == "==" and int_name(c[3]) == "NC_UNLIMITED":
+                    l = strip(c[2])
+                    if any(y[0] == "mem" and y[2] == "shape" for y in walk(l, True)) or base_var(l) in shapev:
+                        found.append(nn)
+            return True
+        ast_walk(f.raw.get("ast"), vis)
+        for k, nn in enumerate(found):
+            reads = []
+
+            def vis2(m, st):
+                if m[0] in ("s", "if", "while", "for", "switch", "do"):
+                    exprs = [m[1]] if m[0] in ("s", "if", "while", "switch") else []
+                    for e in exprs:
+                        for y in walk(e, True):
+                            if y[0] == "mem" and y[2] == "numrecs" and y[3] == "NC":
+                                # guarded by a file_type test on the way down?
+                                ok = False
+                                for a, child in zip(st, st[1:] + [m]):
+                                    if a[0] == "if":
+                                        ac = strip(a[1])
+                                        if kind(ac) == "bin" and ac[1] in ("==", "!=") and any(z[0] == "mem" and z[2] == "file_type" for z in walk(ac, True)) and int_name(ac[3]) == "HDF_FILE":
+                                            in_then = child is a[2]
+                                            if (ac[1] == "==" and not in_then) or (ac[1] == "!=" and in_then):
+                                                ok = True
+                                reads.append((ok, y))
+                return True
+            ast_walk(nn[2], vis2, [])
+            if not reads:
+                continue
+            n += 1
+            key = "UNLIMSIZE:%s#%d" % (f.name, k + 1)
+            line = nn[4] if len(nn) > 4 else f.line
+            if all(ok for ok, _ in reads):
+                ctx.holds("UNLIMSIZE", key, f.where(line), "handle->numrecs is read only where the file is not an HDF file; HDF files use the variable's own record count", nontrivial=True)
+            else:
+                ctx.violated("UNLIMSIZE", key, f.where(line), "the size of a variable's unlimited dimension is taken from handle->numrecs without (or on the wrong side of) a `file_type == HDF_FILE` test: "
+                             "in an HDF file the variable gets the record count of the longest variable in the file")
+    ctx.floor("UNLIMSIZE", 3, n, "(substitutions of a variable's unlimited extent)")
+    return n
